@@ -141,6 +141,134 @@ Proof.
   - eapply sec_update_base_s_cost_short; eassumption.
 Qed.
 
+Lemma sec_update_agree date i j (s s' : sec) D : sec_update date i s = Ok s' -> agree j s D -> agree j s' D.
+Proof.
+  intros H. apply agree_frame.
+  - eapply sec_update_s_prices; eassumption.
+  - eapply sec_update_s_bidoffers; eassumption.
+  - eapply sec_update_s_coupons; eassumption.
+  - eapply sec_update_s_cost_long; eassumption.
+  - eapply sec_update_s_cost_short; eassumption.
+Qed.
+
+(* ---------- trading: outlay, sizing, transact, allocate read the security's current fields and row i only ---------- *)
+Lemma sec_outlay_swap comm (s : sec) D q p : sec_outlay comm (swap D s) q p = sec_outlay comm s q p.
+Proof. destruct s, D. reflexivity. Qed.
+
+Lemma size_loop_unfold_gen fuel comm (s : sec) amount pm q fo last_q last_short :
+  size_loop fuel comm s amount pm q fo last_q last_short =
+  if negb (nisclose N fo amount) && negb (neqb N q (n0 N)) then
+    match fuel with
+    | O => Err EOutOfFuel
+    | S fuel' =>
+      let dq := ndiv N (nsub N fo amount) pm in
+      let q1 := nsub N q dq in
+      let q2 := if s_intpos s then nfloor N q1 else q1 in
+      bind (sec_outlay comm s q2 None) (fun r =>
+      let '(fo2, _, _, _) := r in
+      bind (if s_intpos s then
+              bind (sec_outlay comm s (nadd N q2 (n1 N)) None) (fun r1 =>
+              let '(fo1, _, _, _) := r1 in Ok (nltb N fo2 amount && nltb N amount fo1))
+            else Ok false) (fun brk =>
+      if brk then Ok q2 else
+      match fuel' with
+      | O => Err ESizingLoop
+      | _ =>
+        if s_intpos s && neqb N last_q q2 then Err ESizingStuck else
+        if nltb N (nabs N last_short) (nabs N (nsub N fo2 amount)) then Err ESizingDiverged else
+        size_loop fuel' comm s amount pm q2 fo2 q2 (nsub N fo2 amount)
+      end))
+    end
+  else Ok q.
+Proof. destruct fuel; reflexivity. Qed.
+
+Lemma size_loop_swap comm (s : sec) D : forall fuel amount pm q fo lq ls,
+  size_loop fuel comm (swap D s) amount pm q fo lq ls = size_loop fuel comm s amount pm q fo lq ls.
+Proof.
+  assert (Ei : s_intpos (swap D s) = s_intpos s) by (destruct s, D; reflexivity).
+  induction fuel as [|fuel IH]; intros amount pm q fo lq ls; rewrite !size_loop_unfold_gen; [reflexivity|].
+  destruct (negb _ && negb _); [|reflexivity]. cbv zeta. rewrite Ei, !sec_outlay_swap.
+  destruct (sec_outlay comm s _ None) as [[[[fo2 o2] f2] b2]|]; cbn [bind]; [|reflexivity].
+  destruct (if s_intpos s then _ else _) as [brk|]; cbn [bind]; [|reflexivity].
+  destruct brk; [reflexivity|]. destruct fuel; [reflexivity|].
+  destruct (s_intpos s && _); [reflexivity|]. destruct (nltb N _ _); [reflexivity|]. apply IH.
+Qed.
+
+Definition swapA (D : cols) (r : sec * option (adj N)) : sec * option (adj N) := (swap D (fst r), snd r).
+
+Lemma opt_update_swap (b : bool) date i (s : sec) D :
+  agree i s D -> (if b then sec_update date i (swap D s) else Ok (swap D s)) = rmap (swap D) (if b then sec_update date i s else Ok s).
+Proof. intros H. destruct b; [apply sec_update_swap; exact H | reflexivity]. Qed.
+
+Lemma opt_update_agree (b : bool) date i j (s s' : sec) D :
+  (if b then sec_update date i s else Ok s) = Ok s' -> agree j s D -> agree j s' D.
+Proof. destruct b; intros H; [eapply sec_update_agree; eauto | inversion H; subst; auto]. Qed.
+
+(* SecurityBase.transact *)
+Theorem sec_transact_swap pnow comm q upd us price (s : sec) D :
+  agree (row_of pnow) s D ->
+  sec_transact pnow comm q upd us price (swap D s) = rmap (swapA D) (sec_transact pnow comm q upd us price s).
+Proof.
+  intros H. unfold sec_transact.
+  assert (Eb : (us && (s_needupdate (swap D s) || negb (onat_eqb (s_now (swap D s)) pnow))) = (us && (s_needupdate s || negb (onat_eqb (s_now s) pnow))))
+    by (destruct s, D; reflexivity).
+  rewrite Eb, (opt_update_swap _ _ _ _ _ H).
+  destruct (if us && _ then sec_update pnow (row_of pnow) s else Ok s) as [s1|]; cbn [rmap bind]; [|reflexivity].
+  destruct (nis_zero N q); [reflexivity|].
+  assert (Ebo : s_bo_set (swap D s1) = s_bo_set s1) by (destruct s1, D; reflexivity). rewrite Ebo.
+  destruct (match price with Some _ => negb (s_bo_set s1) | None => false end); [reflexivity|].
+  assert (E1 : set_s_pos (nadd N (s_pos (set_s_needupdate true (swap D s1))) q) (set_s_needupdate true (swap D s1)) =
+               swap D (set_s_pos (nadd N (s_pos (set_s_needupdate true s1)) q) (set_s_needupdate true s1))) by (destruct s1, D; reflexivity).
+  rewrite E1, sec_outlay_swap.
+  destruct (sec_outlay comm _ q price) as [[[[fo o] fee] bop]|]; cbn [bind rmap]; [|reflexivity].
+  unfold swapA; cbn [fst snd]. reflexivity.
+Qed.
+
+(* SecurityBase.allocate, the sizing search included *)
+Theorem sec_allocate_swap pnow comm amount upd (s : sec) D :
+  agree (row_of pnow) s D ->
+  sec_allocate pnow comm amount upd (swap D s) = rmap (swapA D) (sec_allocate pnow comm amount upd s).
+Proof.
+  intros H. unfold sec_allocate.
+  assert (Eb : (s_needupdate (swap D s) || negb (onat_eqb (s_now (swap D s)) pnow)) = (s_needupdate s || negb (onat_eqb (s_now s) pnow)))
+    by (destruct s, D; reflexivity).
+  rewrite Eb, (opt_update_swap _ _ _ _ _ H).
+  destruct (if s_needupdate s || _ then sec_update pnow (row_of pnow) s else Ok s) as [s1|] eqn:E1; cbn [rmap bind]; [|reflexivity].
+  pose proof (opt_update_agree _ _ _ (row_of pnow) _ _ _ E1 H) as H1.
+  destruct (nis_zero N amount); [reflexivity|].
+  assert (Ef : s_price (swap D s1) = s_price s1 /\ s_mult (swap D s1) = s_mult s1 /\ s_value (swap D s1) = s_value s1 /\
+               s_pos (swap D s1) = s_pos s1 /\ s_intpos (swap D s1) = s_intpos s1) by (destruct s1, D; cbn; auto).
+  destruct Ef as (F1 & F2 & F3 & F4 & F5). rewrite F1. destruct (s_price s1) as [pr|]; [|reflexivity].
+  destruct (nis_zero N pr); [reflexivity|]. cbv zeta. rewrite F2, F3, F4, F5.
+  match goal with |- (if nis_zero N ?qq then _ else _) = _ => set (q0 := qq) end.
+  destruct (nis_zero N q0); [reflexivity|].
+  destruct (neqb N q0 (nopp N (s_pos s1))); cbn [bind]; [apply sec_transact_swap; exact H1|].
+  rewrite sec_outlay_swap. destruct (sec_outlay comm s1 q0 None) as [[[[fo o] fe] bp]|]; cbn [bind]; [|reflexivity].
+  rewrite size_loop_swap. destruct (size_loop sizing_fuel comm s1 amount _ q0 fo q0 _) as [q1|]; cbn [bind]; [|reflexivity].
+  apply sec_transact_swap. exact H1.
+Qed.
+
+Lemma sec_transact_agree pnow comm q upd us price j (s s' : sec) oa D :
+  sec_transact pnow comm q upd us price s = Ok (s', oa) -> agree j s D -> agree j s' D.
+Proof.
+  intros H Ha. unfold sec_transact in H. apply bind_ok in H. destruct H as (s1 & E1 & H).
+  pose proof (opt_update_agree _ _ _ j _ _ _ E1 Ha) as H1.
+  destruct (nis_zero N q); [inversion H; subst; exact H1|].
+  destruct (match price with Some _ => negb (s_bo_set s1) | None => false end); [discriminate|].
+  apply bind_ok in H. destruct H as ([[[fo o] fee] bop] & Eo & H). inversion H; subst. exact H1.
+Qed.
+
+Lemma sec_allocate_agree pnow comm amount upd j (s s' : sec) oa D :
+  sec_allocate pnow comm amount upd s = Ok (s', oa) -> agree j s D -> agree j s' D.
+Proof.
+  intros H Ha. unfold sec_allocate in H. apply bind_ok in H. destruct H as (s1 & E1 & H).
+  pose proof (opt_update_agree _ _ _ j _ _ _ E1 Ha) as H1.
+  destruct (nis_zero N amount); [inversion H; subst; exact H1|].
+  destruct (s_price s1) as [pr|]; [|discriminate]. destruct (nis_zero N pr); [discriminate|]. cbv zeta in H.
+  match type of H with (if nis_zero N ?qq then _ else _) = _ => destruct (nis_zero N qq) end; [inversion H; subst; exact H1|].
+  apply bind_ok in H. destruct H as (q1 & _ & H). eapply sec_transact_agree; eauto.
+Qed.
+
 (* the swap touches nothing but the five data columns *)
 Lemma swap_observables (s : sec) D :
   (s_id (swap D s), s_now (swap D s), s_pos (swap D s), s_lastpos (swap D s), s_price (swap D s), s_value (swap D s),
@@ -179,8 +307,8 @@ Fixpoint agreeN (i : nat) (n : node) : Prop :=
 Variable ps : option nat -> tree -> result tree.
 (* the paper step (update; run; update of the copy) commutes with the swap: the engine part is the theorem below one
    level down, the algo part is the subject of LookaheadProofs.v *)
-Definition PS (i : nat) : Prop :=
-  forall date p, agreeN i (fst p) -> ps date (swapT p) = rmap swapT (ps date p).
+Definition PS (date : option nat) (i : nat) : Prop :=
+  forall p, agreeN i (fst p) -> ps date (swapT p) = rmap swapT (ps date p).
 
 Lemma swap_id (s : sec) D : s_id (swap D s) = s_id s.
 Proof. destruct s, D; reflexivity. Qed.
@@ -281,7 +409,7 @@ Definition swapP (paper : option (node * bool)) : option (node * bool) :=
   match paper with Some (pn, st) => Some (swapN pn, st) | None => None end.
 
 Lemma strat_finish_swap date i np (g : strat) (ks : list node) paper :
-  PS i -> match paper with Some (pn, _) => agreeN i pn | None => True end ->
+  PS date i -> match paper with Some (pn, _) => agreeN i pn | None => True end ->
   strat_finish ps date i np g (map swapN ks) (swapP paper) =
   rmap (fun gp => (fst gp, swapP (snd gp))) (strat_finish ps date i np g ks paper).
 Proof.
@@ -291,7 +419,7 @@ Proof.
   destruct (g_paper_trade (strat_set_rows i g1)); [|reflexivity].
   destruct paper as [[pn st]|]; cbn [swapP]; [|reflexivity].
   destruct np.
-  - change (swapN pn, st) with (swapT (pn, st)). rewrite (HPS date (pn, st) Hp).
+  - change (swapN pn, st) with (swapT (pn, st)). rewrite (HPS (pn, st) Hp).
     destruct (ps date (pn, st)) as [[pn1 st1]|]; cbn; [|reflexivity].
     unfold root_price. cbn. destruct pn1 as [s|g2 k2 l2 p2]; reflexivity.
   - cbn. unfold root_price. cbn. destruct pn as [s|g2 k2 l2 p2]; reflexivity.
@@ -302,7 +430,7 @@ Proof. induction ks as [|k ks IH]; intros H; [constructor|]. destruct H as [H1 H
 
 (* StrategyBase.update on a tree of any depth reads row i of the data only *)
 Theorem node_update_swap date i (n : node) :
-  PS i -> agreeN i n -> node_update ps date i (swapN n) = rmap swapN (node_update ps date i n).
+  PS date i -> agreeN i n -> node_update ps date i (swapN n) = rmap swapN (node_update ps date i n).
 Proof.
   intros HPS. induction n as [s | g kids lz paper IH] using node_ind2; intros Ha.
   - cbn [swapN node_update]. rewrite (sec_update_swap _ _ _ _ Ha).
@@ -325,15 +453,6 @@ Qed.
 (* ---------- the columns never change, so agreement on any row is kept ---------- *)
 Definition PSA (j : nat) : Prop := forall date p p', ps date p = Ok p' -> agreeN j (fst p) -> agreeN j (fst p').
 
-Lemma sec_update_agree date i j (s s' : sec) D : sec_update date i s = Ok s' -> agree j s D -> agree j s' D.
-Proof.
-  intros H. apply agree_frame.
-  - eapply sec_update_s_prices; eassumption.
-  - eapply sec_update_s_bidoffers; eassumption.
-  - eapply sec_update_s_coupons; eassumption.
-  - eapply sec_update_s_cost_long; eassumption.
-  - eapply sec_update_s_cost_short; eassumption.
-Qed.
 
 Lemma agree_set_weight j w (k : node) : agreeN j k -> agreeN j (set_weight w k).
 Proof. destruct k as [s|g kk lz pp]; cbn; [destruct s; exact (fun H => H) | exact (fun H => H)]. Qed.
@@ -412,22 +531,22 @@ Fixpoint updates (steps : list (option nat * nat)) (n : node) : result node :=
    with the columns swapped — the same values, positions, cash, weights, histories, the same error if it fails.  Any number
    instance, so in the float instance "the same" is bit for bit. *)
 Theorem updates_swap t (steps : list (option nat * nat)) :
-  (forall j, j <= t -> PS j /\ PSA j) -> Forall (fun st => snd st <= t) steps ->
+  Forall (fun st => PS (fst st) (snd st) /\ snd st <= t) steps -> (forall j, j <= t -> PSA j) ->
   forall n, agree_upto t n -> updates steps (swapN n) = rmap swapN (updates steps n).
 Proof.
-  intros HP. induction steps as [|[date i] rest IH]; intros Hs n Ha; [reflexivity|].
-  inversion Hs as [|? ? Hi Hs']; subst. cbn in Hi. cbn [updates].
-  rewrite (node_update_swap date i n (proj1 (HP i Hi)) (Ha i Hi)).
+  intros Hs HP. induction steps as [|[date i] rest IH]; intros n Ha; [reflexivity|].
+  inversion Hs as [|? ? [Hps Hi] Hs']; subst. cbn in Hi, Hps. cbn [updates].
+  rewrite (node_update_swap date i n Hps (Ha i Hi)).
   destruct (node_update ps date i n) as [n1|] eqn:E1; cbn; [|reflexivity].
-  apply IH; [exact Hs'|]. intros j Hj. eapply node_update_agree; [exact (proj2 (HP j Hj)) | exact E1 | exact (Ha j Hj)].
+  apply IH; [exact Hs'|]. intros j Hj. eapply node_update_agree; [exact (HP j Hj) | exact E1 | exact (Ha j Hj)].
 Qed.
 End EL.
 
 (* the hypotheses on the paper step are satisfiable (a tree without paper-trading sub-strategies never calls it), and a
    security's own columns agree with themselves *)
-Example ps_identity_ok (N : num) (A : Type) (F : nat -> cols N) j :
-  PS N A F (fun _ p => Ok p) j /\ PSA N A F (fun _ p => Ok p) j.
-Proof. split; [intros date p _; reflexivity | intros date p p' H Ha; inversion H; subst; exact Ha]. Qed.
+Example ps_identity_ok (N : num) (A : Type) (F : nat -> cols N) date j :
+  PS N A F (fun _ p => Ok p) date j /\ PSA N A F (fun _ p => Ok p) j.
+Proof. split; [intros p _; reflexivity | intros d p p' H Ha; inversion H; subst; exact Ha]. Qed.
 
 Example agree_self (N : num) i (s : sec N) :
   agree N i s (mkCols N (s_prices s) (s_bidoffers s) (s_coupons s) (s_cost_long s) (s_cost_short s)).
